@@ -195,7 +195,13 @@ BOUNDED_NOTE = ("NOT a proof: bound = G1 programs of nesting depth <= 2 plus the
 PROPS["C01"] = dict(
     level="exploration", contracts=["contracts.inspect311", "contracts.c01_lemmas", "contracts.lowlevel", "contracts.inspect310"],
     unit_filter=lambda u: not u.name.startswith("C20.") and u.name != "C02.inspect_frame_310.stack",
-    legs=[dict(name="c01_cmanagers", cmd="PYTHONPATH={repo} " + PY312 + " legs/c01_cmanagers.py"),
+    legs=[dict(name="c02_exit_names", cmd="PYTHONPATH={repo} " + PY312 + " legs/c02_exit_names.py"),
+          dict(name="c02_exit_names_py311", cmd="PYTHONPATH={repo} " + PY311 + " legs/c02_exit_names.py")] + old_pythons("c02_exit_names", "c02_exit_names.py") + [
+          dict(name="c01_huge_consts", cmd="PYTHONPATH={repo} " + PY312 + " legs/c01_huge_consts.py"),
+          dict(name="c01_huge_consts_py310", cmd="PYTHONPATH={repo}:{verif}/.vendor " + PY310 + " legs/c01_huge_consts.py"),
+          dict(name="c01_huge_consts_py311", cmd="PYTHONPATH={repo} " + PY311 + " legs/c01_huge_consts.py", thorough_only=True),
+          dict(name="c01_huge_consts_py39", cmd="PYTHONPATH={repo}:{verif}/.vendor " + PY39 + " legs/c01_huge_consts.py", thorough_only=True),
+          dict(name="c01_cmanagers", cmd="PYTHONPATH={repo} " + PY312 + " legs/c01_cmanagers.py"),
           dict(name="c01_cmanagers_py311", cmd="PYTHONPATH={repo} " + PY311 + " legs/c01_cmanagers.py")] + old_pythons("c01_cmanagers", "c01_cmanagers.py") + [
           g1("suspended", PY312, "py312"), g1("suspended", PY311, "py311"), corpus("exits", PY312, "py312"),
           corpus("exits", PY311, "py311", True), g1("suspended", PY310, "py310", vendor=True),
@@ -228,8 +234,8 @@ PROPS["C08"] = dict(
     legs=[g1("meta", PY312, "py312"), g1("meta", PY311, "py311"), corpus("meta", PY312, "py312"),
                                              dict(name="c08_targets_py312", cmd="PYTHONPATH={repo} " + PY312 + " legs/c08_targets.py"),
                                              dict(name="c08_targets_py311", cmd="PYTHONPATH={repo} " + PY311 + " legs/c08_targets.py"),
-                                             dict(name="c08_targets_py310", cmd="PYTHONPATH={repo}:{verif}/.vendor " + PY310 + " legs/c08_targets.py", thorough_only=True),
-                                             dict(name="c08_targets_py39", cmd="PYTHONPATH={repo}:{verif}/.vendor " + PY39 + " legs/c08_targets.py", thorough_only=True),
+                                             dict(name="c08_targets_py310", cmd="PYTHONPATH={repo}:{verif}/.vendor " + PY310 + " legs/c08_targets.py"),
+                                             dict(name="c08_targets_py39", cmd="PYTHONPATH={repo}:{verif}/.vendor " + PY39 + " legs/c08_targets.py"),
                                              corpus("meta", PY311, "py311", True), g1("meta", PY310, "py310", vendor=True),
                                              g1("meta", PY39, "py39", thorough_only=True, vendor=True)],
     technique=BOUNDED_TECH + "; the varname rule of the join (static `as` name, else a local whose value IS the manager) discharged deductively",
@@ -241,6 +247,10 @@ PROPS["C08"] = dict(
 PROPS["C20"] = dict(
     level="exploration", contracts=["contracts.lowlevel"], unit_filter=lambda u: u.name.startswith("C20."),
     legs=[dict(name="c20_mode", cmd="PYTHONPATH={repo} " + PY312 + " legs/c20_mode.py"),
+          dict(name="c01_huge_consts", cmd="PYTHONPATH={repo} " + PY312 + " legs/c01_huge_consts.py"),
+          dict(name="c01_huge_consts_py310", cmd="PYTHONPATH={repo}:{verif}/.vendor " + PY310 + " legs/c01_huge_consts.py"),
+          dict(name="c01_huge_consts_py311", cmd="PYTHONPATH={repo} " + PY311 + " legs/c01_huge_consts.py", thorough_only=True),
+          dict(name="c01_huge_consts_py39", cmd="PYTHONPATH={repo}:{verif}/.vendor " + PY39 + " legs/c01_huge_consts.py", thorough_only=True),
           dict(name="c01_cmanagers", cmd="PYTHONPATH={repo} " + PY312 + " legs/c01_cmanagers.py"),
           dict(name="c01_cmanagers_py311", cmd="PYTHONPATH={repo} " + PY311 + " legs/c01_cmanagers.py"),
           dict(name="c20_faults", cmd="PYTHONPATH={repo} " + PY312 + " legs/c20_faults.py"),
@@ -259,7 +269,9 @@ PROPS["C06"] = dict(
     level="exploration", contracts=["contracts.inspect311", "contracts.lowlevel", "contracts.inspect310", "contracts.c13"], static=["contracts.c06_effects"],
     unit_filter=lambda u: u.name in ("C07.inspect_frame_311", "C01.analyze_with_blocks", "C01.inspect_frame_310.blocks", "C02.inspect_frame_310.stack",
                                      "C20.contexts_active_by_referents", "C13.push"),
-    legs=[dict(name="c13_options", cmd="PYTHONPATH={repo} " + PY312 + " legs/c13_options.py"), g1("twin", PY312, "py312"), g1("twin", PY311, "py311", thorough_only=True),
+    legs=[dict(name="c13_options", cmd="PYTHONPATH={repo} " + PY312 + " legs/c13_options.py"),
+          dict(name="c08_targets_py312", cmd="PYTHONPATH={repo} " + PY312 + " legs/c08_targets.py"),
+          dict(name="c20_faults", cmd="PYTHONPATH={repo} " + PY312 + " legs/c20_faults.py"), g1("twin", PY312, "py312"), g1("twin", PY311, "py311", thorough_only=True),
           dict(name="c07_preempt", cmd="PYTHONPATH={repo} " + PY312 + " legs/c07_preempt.py")],
     technique=BOUNDED_TECH + " (twin runs)",
     explanation='Deductive / syntactic part: five effect and retention obligations over the package ASTs (no resuming call on a target, no memoising decorator, no clock / RNG, module-level mutable state only in the listed places, ...); inspect_frame reads only value-stack slots below the validated depth and brackets every slot read by an f_lasti check; analyze_with_blocks hands out a fresh table of fresh templates (nothing shared between calls, so filling in obj cannot leak a manager into module state). _contexts_active_by_referents touches its referents only through isinstance tests and the attributes of bound methods (no attribute lookup on arbitrary user objects); ExtractOptions.push and the options leg (two threads interleaved) run here too: an extraction must not disturb another one in progress. Reference counts of the ctypes reads and crash-freedom are assumptions.',
@@ -327,6 +339,7 @@ PROPS["C07"] = dict(
     level="other", contracts=["contracts.glue_small", "contracts.c04", "contracts.inspect311"],
     unit_filter=lambda u: u.name.startswith("C07.") or u.name in ("C04.try_from", "C04.slice_block", "C04.limit_block"),
     legs=[dict(name="c07_threads", cmd="PYTHONPATH={repo} " + PY312 + " legs/c07_threads.py"),
+          dict(name="c02_exit_names", cmd="PYTHONPATH={repo} " + PY312 + " legs/c02_exit_names.py"),
           dict(name="c07_preempt", cmd="PYTHONPATH={repo} " + PY312 + " legs/c07_preempt.py"),
           dict(name="c07_preempt_py311", cmd="PYTHONPATH={repo} " + PY311 + " legs/c07_preempt.py", thorough_only=True)],
     technique=TECH + "; bounded blocked-thread leg and sampled racing-thread stress",
